@@ -73,7 +73,12 @@ def gen_operand(r: random.Random, kind: str, hostile: bool) -> Any:
     if kind == "str":
         return choice(r, ["a", "ab", "abc", "b", "", "admin", "1", "user"]) if not (hostile and r.random() < 0.3) else choice(r, HOSTILE_STRS)
     if kind == "col":
-        return [gen_scalar(r, hostile) for _ in range(r.randrange(0, 4))] if r.random() < 0.8 else choice(r, ["abc", "admin"])
+        k = r.random()
+        if k < 0.08:
+            return [gen_scalar(r, hostile) for _ in range(r.randrange(9, 14))]              # beyond any small-size fast path
+        if k < 0.14:
+            return [gen_value(r, 1, hostile) for _ in range(r.randrange(1, 4))]               # nested lists / objects as members
+        return [gen_scalar(r, hostile) for _ in range(r.randrange(0, 4))] if k < 0.85 else choice(r, ["abc", "admin"])
     if kind == "time":
         k = r.random()
         if hostile and k < 0.4:
